@@ -310,45 +310,83 @@ func c12PoolRules(c *core.Ctx, r *c12roles, fns []*ssa.Function, allowed map[*ss
 	}
 	for _, f := range fns {
 		for _, ci := range core.Calls(f) {
-			o := core.CalleeObj(ci)
-			if o == nil || o.Pkg() == nil || o.Pkg().Path() != "sync" {
+			putArg, isPut := poolPutArg(ci)
+			isGet := poolGetCall(ci)
+			if !isPut && !isGet {
 				continue
 			}
-			name := core.FuncName(o)
-			if name != "Pool.Put" && name != "Pool.Get" {
-				continue
-			}
-			recv := ci.Common().Args[0]
+			// which pool? direct calls name it; wrapper calls are resolved through the wrapper's own direct call
 			isNodePool := false
-			for _, g := range r.pools {
-				if recv == ssa.Value(g) {
-					isNodePool = true
+			poolOf := func(cj ssa.CallInstruction) bool {
+				if !(isPoolCall(cj, "Put") || isPoolCall(cj, "Get")) {
+					return false
+				}
+				for _, g := range r.pools {
+					if cj.Common().Args[0] == ssa.Value(g) {
+						return true
+					}
+				}
+				return false
+			}
+			if poolOf(ci) {
+				isNodePool = true
+			} else if cf := ci.Common().StaticCallee(); cf != nil && cf.Blocks != nil {
+				for _, cj := range core.Calls(cf) {
+					if poolOf(cj) {
+						isNodePool = true
+					}
 				}
 			}
 			if !isNodePool {
 				continue
+			}
+			name := "Pool.Get"
+			if isPut {
+				name = "Pool.Put"
 			}
 			key := core.FuncKey(f) + " " + name
 			if core.FuncPkg(f) != r.idr || !r.nodeAPIFunc(f) {
 				c.Bad(rd, key, core.InstrPos(ci), "node pool used outside the node API")
 				continue
 			}
-			if name == "Pool.Get" {
-				// the result may only be type-asserted
+			if !isPut {
+				// the result may only be type-asserted (or returned by a one-hop wrapper)
 				okUse := true
 				if v := ci.Value(); v != nil {
 					for _, u := range core.Referrers(v) {
-						if _, ok := u.(*ssa.TypeAssert); !ok {
-							if _, dbg := u.(*ssa.DebugRef); !dbg {
+						switch u.(type) {
+						case *ssa.TypeAssert, *ssa.DebugRef, *ssa.Return:
+						case *ssa.Store:
+							// CreateNode initialises Type/Data on the obtained node: stores THROUGH it are fine, storing it is not
+							if st := u.(*ssa.Store); st.Val == v {
 								okUse = false
 							}
+						case *ssa.FieldAddr:
+						default:
+							okUse = false
 						}
 					}
 				}
 				c.Check(okUse, rd, key, core.InstrPos(ci), "pool result only type-asserted to *Node", "pool result used other than through a *Node assertion")
 				continue
 			}
-			arg := core.Unwrap(ci.Common().Args[1], true)
+			arg := core.Unwrap(putArg, true)
+			// a one-hop wrapper's own Put of its parameter is judged at the wrapper's call sites
+			if isPoolCall(ci, "Put") {
+				if p, isParam := arg.(*ssa.Parameter); isParam && p.Parent() == f && len(f.Blocks) <= 2 && len(f.Params) == 1 {
+					callers := 0
+					for _, g := range fns {
+						for _, cj := range core.Calls(g) {
+							if cj.Common().StaticCallee() == f {
+								callers++
+							}
+						}
+					}
+					if callers > 0 {
+						continue
+					}
+				}
+			}
 			dominated := false
 			for _, cj := range core.Calls(f) {
 				cf := cj.Common().StaticCallee()
